@@ -199,10 +199,10 @@ def run_impl(p):
             c.count(arr)
             trace.append(_totals(c, p, kd))
             if not np.array_equal(arr, before):
-                raise AssertionError("count wrote into the caller's sample array")
+                raise engine.Inconsistent("count wrote into the caller's sample array")
             c4.count(arr)
         if [float(x) for x in _totals(c4, p, kd)] != [float(x) for x in _totals(c, p, kd)]:
-            raise AssertionError("counting the same sample arrays into a second counter gives other totals")
+            raise engine.Inconsistent("counting the same sample arrays into a second counter gives other totals")
         # metamorphic: same multiset of samples, permuted and re-split
         rnd = random.Random(p["pseed"])
         alls = [s for b in batches for s in b]
@@ -215,10 +215,10 @@ def run_impl(p):
         c3, _ = _mk(p)
         c3.count(list(alls))
         if not np.array_equal(shared[0], keep[0]) or (shared[1] is not None and not np.array_equal(shared[1], keep[1])):
-            raise AssertionError("the counter wrote into the arrays it was constructed from")
+            raise engine.Inconsistent("the counter wrote into the arrays it was constructed from")
         ini = [0 if p["init"] == "default" else (p["init"][i] if isinstance(p["init"], list) else p["init"]) for i in range(len(p["keys"]))]
         if [float(x) for x in _totals(twin, p, kd)] != [float(x) for x in ini]:
-            raise AssertionError("a counter built from the same arrays changed along with this one")
+            raise engine.Inconsistent("a counter built from the same arrays changed along with this one")
         return {"k": "obs", "trace": canon(trace), "resplit": canon(_totals(c2, p, kd)), "onecall": canon(_totals(c3, p, kd)),
                 "items": canon(htgen.sort_pairs((k, float(v) if _isfloat(p) else int(v)) for k, v in c.items()))}
     return guarded(g)
